@@ -47,7 +47,7 @@ func VerifC06_DeleteLeavesNoTrace() {
 	env := verifNewEnv(cfg)
 	defer env.close()
 	mgr := verifNewMgrStore(env.emp, false)
-	env.createDepts("x", "y")
+	env.createDepts(vDeptIds...)
 	// a bystander emp that shares values / targets with the victim where possible
 	other := &vEmp{Id: "b", Name: "Nb", Roles: []string{"r1"}}
 	bx := "x"
@@ -132,6 +132,11 @@ func VerifC06_DeleteLeavesNoTrace() {
 		l, r := env.emp.rcDepts.GetLinkCounts(tx, []byte("b"), []byte("x"))
 		verifrt.Assert(l != nil && r != nil && *l == 1 && *r == 1, "C06 other entities keep their ref-counted links")
 	})
+	// nothing the victim shared with others went with it: every index and link
+	// still mirrors the remaining entities (the repository's own checker, which
+	// C09 shows reports every class of mismatch)
+	rep, ierr := env.checkIntegrity(false)
+	verifrt.Assert(ierr == nil && rep.total == 0, "C06 after the delete the indexes and links still mirror the remaining entities")
 	// the id can be created again and behaves like a first creation
 	again := &vEmp{Id: vVictim, Name: v.Name, Nick: v.Nick, Roles: v.Roles, Boss: v.Boss}
 	err = env.update(func(ctx MutateContext) error { return env.emp.Create(ctx, again) })
@@ -175,6 +180,52 @@ func VerifC06_DeleteTargetLeavesNoTrace() {
 		verifrt.Assert(!verifScanForId(tx, vVictim), "C06 after the committed delete the target's id occurs nowhere")
 		verifrt.Assert(ValidateDeleted(tx, vVictim) == nil, "C06 ValidateDeleted finds no trace of the target")
 	})
+}
+
+// VerifC06_SameIdInBothStores: ids are per store. An emp and a dept with the
+// same id reference / link each other; deleting the emp removes the emp's
+// traces (the dept's back-references to it included) and leaves the dept.
+func VerifC06_SameIdInBothStores() {
+	cfg := vStoreCfg{nickNullable: true, fk: vFkIndexNullable, fkToDept: true, links: true}
+	env := verifNewEnv(cfg)
+	defer env.close()
+	const same = "s"
+	env.createDepts(same, "x")
+	boss := []string{same, "x"}[verifrt.Choose("boss", 2)]
+	linked := verifrt.Bool("link")
+	err := env.update(func(ctx MutateContext) error {
+		if err := env.emp.Create(ctx, &vEmp{Id: same, Name: "Ns", Boss: &boss, Roles: []string{"r1"}}); err != nil {
+			return err
+		}
+		if linked {
+			return env.emp.depts.AddLinks(ctx.Tx(), same, same)
+		}
+		return nil
+	})
+	verifrt.Assert(err == nil, "C06 same-id setup succeeds")
+	err = env.update(func(ctx MutateContext) error { return env.emp.DeleteById(ctx, same) })
+	verifrt.Assert(err == nil, "C06 deleting the emp succeeds")
+	env.view(func(tx *bbolt.Tx) {
+		verifrt.Assert(env.emp.GetEntityBucket(tx, []byte(same)) == nil, "C06 the emp is gone")
+		for _, d := range []string{same, "x"} {
+			db := env.dept.GetEntityBucket(tx, []byte(d))
+			verifrt.Assert(db != nil, "C06 the dept with the same id is left alone")
+			if db == nil {
+				continue
+			}
+			verifrt.Assert(!verifRawLinked(db, vFEmps, same), "C06 no back-reference to the deleted emp remains on dept "+d)
+			verifrt.Assert(!verifRawLinked(db, vFMembers, same), "C06 no link to the deleted emp remains on dept "+d)
+		}
+		verifrt.Assert(len(env.dept.members.GetLinks(tx, same)) == 0, "C06 the dept's link collection does not list the deleted emp")
+	})
+	rep, ierr := env.checkIntegrity(false)
+	verifrt.Assert(ierr == nil && rep.total == 0, "C06 same ids: indexes and links mirror the remaining entities")
+}
+
+// a cascading delete inside a transaction that already wrote to the referrers'
+// store (see verifC04CascadeInWritingTx): no reference to the deleted id stays
+func VerifC06_CascadeInWritingTx() {
+	verifC04CascadeInWritingTx(vStoreCfg{fk: []int{vFkIndexCascade, vFkConstraintCascade}[verifrt.Choose("wiring", 2)]})
 }
 
 // second child store with an index of its own
